@@ -88,6 +88,7 @@ type OpSpec struct {
 	// Marks (C12): per event, the literal text in the device's answer that ends the expected
 	// response; EarlyAt > 0: the dialogue ends after that many events (completion pattern).
 	Marks   []string `json:"marks,omitempty"`
+	Must    []string `json:"must,omitempty"` // strings the result must contain
 	EarlyAt int      `json:"early_at,omitempty"`
 	// ReuseCb: a callbacks operation that uses the callback objects of the previous one again
 	ReuseCb bool `json:"reuse_callbacks,omitempty"`
